@@ -977,6 +977,8 @@ def value_attr(I, obj, name):
             r = target(*a, **k)
             if r is not None and type(r).__name__ in ("Match", "Pattern"):
                 return ReObj(r)
+            if name == "finditer":
+                return GenVal([ReObj(m_) for m_ in r])
             return r
         return Builtin(name, remeth)
     if isinstance(obj, Vec):
@@ -1308,6 +1310,8 @@ def make_builtins(I):
                 return (2, k.id)       # only reached on ties of the leading components
             if k is None:
                 return (-1, 0)
+            if isinstance(k, bool) or k is sp.true or k is sp.false:
+                return (0, 1.0 if (k is True or k is sp.true) else 0.0)
             e = to_expr(k)
             if not e.is_number:
                 raise AnalysisError("sorted over symbolic keys")
@@ -1323,6 +1327,10 @@ def make_builtins(I):
                             continue
                         return lt(x, y)
                     return len(a) < len(b)
+                if isinstance(a, str) and isinstance(b, str):
+                    return a < b
+                if isinstance(a, bool) and isinstance(b, bool):
+                    return a < b
                 if _alg(a) and _alg(b):
                     return compare(I, ast.Lt(), a, b)
                 raise AnalysisError("sorted over symbolic keys")
@@ -1471,14 +1479,20 @@ def external(I, dotted):
     mod, _, name = dotted.rpartition(".")
     if dotted in ("numpy", "math", "os", "os.path", "sys", "warnings", "copy", "numpy.linalg", "re", "string"):
         return ModuleVal(dotted, external=dotted)
-    if mod == "re" and name in ("sub", "split", "match", "fullmatch", "search", "findall", "compile", "escape"):
+    if mod == "re" and name.isupper() and hasattr(__import__("re"), name):
+        return sp.Integer(int(getattr(__import__("re"), name)))       # flag constants (re.VERBOSE, re.I, ...)
+    if mod == "re" and name in ("sub", "split", "match", "fullmatch", "search", "findall", "compile", "escape", "finditer", "subn"):
         import re as _re
 
         def refn(*a, **k):
             # the standard regular-expression library on concrete strings (library semantics, not repository code)
+            a = [int(x) if isinstance(x, sp.Integer) else x for x in a]
+            k = {kk: (int(x) if isinstance(x, sp.Integer) else x) for kk, x in k.items()}
             if not all(isinstance(x, (str, int)) or x is None for x in list(a) + list(k.values())):
                 raise AnalysisError(f"re.{name} on a symbolic string")
             r = getattr(_re, name)(*a, **k)
+            if name == "finditer":
+                return GenVal([ReObj(m_) for m_ in r])
             if name in ("match", "fullmatch", "search"):
                 return None if r is None else ReObj(r)
             if name == "compile":
